@@ -82,7 +82,9 @@ theorem inv_mutate {s : St} (hinv : Inv s) {r : Nat} {a : Addr} (hr : s.root r =
     {v' : Val} (hv' : decode (replaceAt t p t') = some v')
     (hai : t'.sc.alwaysImm = tx.sc.alwaysImm) (hf' : flagsOK true t')
     (hcnt : ∀ y, cnt y t' ≤ 1 ∧ (y < s.heap.length → cnt y t' ≤ cnt y tx)) :
-    Inv (s.bind (h1.set x o') none) ∧ unfoldA D (h1.set x o') a = some (replaceAt t p t') := by
+    Inv (s.bind (h1.set x o') none) ∧ unfoldA D (h1.set x o') a = some (replaceAt t p t') ∧
+      (∀ (r' : Nat) (b : Addr) (tb : ATree), r' ≠ r → s.root r' = some b → unfoldA D s.heap b = some tb →
+        unfoldA D (h1.set x o') b = some tb) := by
   subst he
   have hicS := hinv.immClosed
   have hxl := (List.getElem?_eq_some_iff.mp hox).1
@@ -121,7 +123,11 @@ theorem inv_mutate {s : St} (hinv : Inv s) {r : Nat} {a : Addr} (hr : s.root r =
       exact List.mem_of_getElem? ho
   have hxl1 : tx.addr < (s.heap ++ e).length := by
     rw [List.length_append]; exact Nat.lt_of_lt_of_le hxl (Nat.le_add_right _ _)
-  refine ⟨?_, hnewtree⟩
+  refine ⟨?_, hnewtree, ?_⟩
+  rotate_left
+  · intro r' b tb hrr hb hub
+    obtain ⟨tb', hub1, hub2⟩ := hother r' b hrr (root_mem hb)
+    rw [hub] at hub1; cases hub1; exact hub2
   apply Inv.mk' (immClosed_set_mut hic1 hx1 hmx hm')
   · -- classes
     intro c oc hoc hai'
@@ -218,5 +224,9 @@ theorem inv_mutate {s : St} (hinv : Inv s) {r : Nat} {a : Addr} (hr : s.root r =
         rw [hub] at hu0; cases hu0
         exact ⟨tb, v0, hub', hd0, hf0⟩
     · cases h1
+  · apply defaults_set (defaults_ext e hinv.defaults)
+    intro o2 ho2 hm2
+    rw [hx1] at ho2; cases ho2
+    rw [hmx] at hm2; cases hm2
 
 end BtcVerif.Model.Heap
